@@ -58,6 +58,15 @@ def impl(line):
         if r3 != r1:
             return f'UNSTABLE {tf(r1)} then {tf(r3)} after {what}'
         return tf(r1)
+    if op == 'boxmove':
+        # a box whose corners are re-assigned between two questions (public attributes): `pip.boxmove x y  w1 n1 e1 s1  w2 n2 e2 s2`
+        from geostructures import GeoBox
+        b = GeoBox(_coord(a[2], a[3]), _coord(a[4], a[5]))
+        c = _coord(a[0], a[1])
+        r1 = b.contains_coordinate(c)
+        _ = (b.bounds, b.centroid)                       # whatever is derived from the corners is looked at in between
+        b.nw_bound, b.se_bound = _coord(a[6], a[7]), _coord(a[8], a[9])
+        return tf(r1) + tf(b.contains_coordinate(_coord(a[0], a[1])))
     if op == 'inseq':
         # ONE live object asked a whole sequence of queries: `pip.inseq k x1 y1 … xk yk <shape>`; an answer must not depend
         # on what the object was asked before
@@ -93,6 +102,10 @@ def spec(line):
         if not inside:
             return 'F'
         return tf(not any(planar.in_ring(p, h) == 1 for h in s.holes))
+    if op == 'boxmove':
+        x, y = F(a[0]), F(a[1])
+        box = lambda w, n, e, s_: tf(F(w) <= x <= F(e) and F(s_) <= y <= F(n))  # noqa: E731
+        return box(*a[2:6]) + box(*a[6:10])
     if op == 'inseq':
         k = int(a[0])
         shape = ' '.join(a[1 + 2 * k:])
@@ -361,6 +374,15 @@ def check(run):
         for _ in range(run.scale(6, 60)):
             qs = rng.sample(lattice, len(lattice))
             lines.append(f'pip.inseq {len(qs)} ' + ' '.join(f'{rat(q[0])} {rat(q[1])}' for q in qs) + ' ' + txt)
+    # … and one box whose corners are re-assigned between two identical questions (seeded change C01-v2: `bounds` became a
+    # cached_property that `contains_coordinate` reads)
+    for _ in range(run.scale(60, 600)):
+        w1, e1 = sorted(rng.sample(range(-4, 5), 2))
+        s1, n1 = sorted(rng.sample(range(-4, 5), 2))
+        w2, e2 = sorted(rng.sample(range(-4, 5), 2))
+        s2, n2 = sorted(rng.sample(range(-4, 5), 2))
+        q = (F(rng.randint(-9, 9), 2), F(rng.randint(-9, 9), 2))
+        lines.append(f'pip.boxmove {rat(q[0])} {rat(q[1])} {w1} {n1} {e1} {s1} {w2} {n2} {e2} {s2}')
     run.run_cases('same-object-query-sequences', lines, impl, spec, model=False,
                   tag=lambda ln, a: ['inseq:' + ('ok' if set(a) <= set('TF') else a[:12])])
 
